@@ -145,7 +145,8 @@ def roundtrip(r, name, value, kind, full=False):
         quoted = not pair.endswith("=" + value) or value == ""
         if quoted:
             r.count("distinct_nontrivial")
-        for header in (pair, "x=1; " + pair + "; y=2", "x=1;" + pair):
+        # (the cookie alone, between two others, and - unless its own name is blank - next to chunks that carry no '=' at all)
+        for header in (pair, "x=1; " + pair + "; y=2", "x=1;" + pair) + ((pair + "; flag", "flag; " + pair + "; ; secure", pair + ";flag;x=1") if name else ()):
             try:
                 got = read_cookies(iface, header)
             except Exception as e:  # noqa
@@ -154,7 +155,7 @@ def roundtrip(r, name, value, kind, full=False):
             if got.get(name) != value:
                 r.violation(f"roundtrip:value-changed:{kind}", w, f"{iface} cookie {name!r}={value!r} serialised as {pair!r}; Cookie: {header!r} gives {got.get(name)!r}")
                 break
-            if header != pair and (got.get("x") != "1" or (header.endswith("y=2") and got.get("y") != "2")):
+            if "x=1" in header.replace(pair, "") and (got.get("x") != "1" or (header.endswith("y=2") and got.get("y") != "2")):
                 r.violation("roundtrip:neighbour-damaged", w, f"{iface} Cookie: {header!r} gives {dict(got)!r:.200}")
                 break
         else:
